@@ -81,8 +81,9 @@ Step ==
                                \cup F("X01_LegalDialogue", R!SrvLegal(SrvOf(Ev.conn).ss, SrvOf(Ev.conn).helo, Ev.verb))
             /\ srv' = PutSrv(Ev.conn, [SrvOf(Ev.conn) EXCEPT !.pend = Ev.verb])
             /\ UNCHANGED <<b, st, sharedCid, openSet, lastOpened, viols, stats>>
-       [] Ev.ev = "eod" ->    \* the reply to the end-of-data follows; acked when it is positive
-            /\ cur' = [cur EXCEPT !.acked = Trace[l + 1].ev = "reply" /\ Trace[l + 1].code = 250]
+       [] Ev.ev = "eod" ->    \* the reply to the end-of-data follows on the same connection (events of other connections
+                              \* may lie between the two); acked when it is positive
+            /\ UNCHANGED cur
             /\ viol1' = viol1 \cup F("X01_LegalDialogue", SrvOf(Ev.conn).ss = "data")
             /\ srv' = PutSrv(Ev.conn, [SrvOf(Ev.conn) EXCEPT !.pend = "EOD"])
             /\ UNCHANGED <<b, st, sharedCid, openSet, lastOpened, viols, stats>>
@@ -93,7 +94,8 @@ Step ==
             LET x == SrvOf(Ev.conn) IN
             /\ srv' = PutSrv(Ev.conn, [x EXCEPT !.ss = R!SrvNext(x.ss, x.pend, Ev.cls), !.pend = "",
                                                  !.helo = IF x.pend \in {"EHLO", "HELO"} /\ Ev.cls = "ok" THEN TRUE ELSE @])
-            /\ UNCHANGED <<b, st, cur, sharedCid, openSet, lastOpened, viol1, viols, stats>>
+            /\ cur' = IF cur.active /\ x.pend = "EOD" /\ Ev.code = 250 THEN [cur EXCEPT !.acked = TRUE] ELSE cur
+            /\ UNCHANGED <<b, st, sharedCid, openSet, lastOpened, viol1, viols, stats>>
        [] Ev.ev = "ret" ->
             /\ viol1' = viol1 \cup RetFlags(Ev)
             /\ st' = cur.res.st
